@@ -775,8 +775,27 @@ PREDICATES = {
 }
 
 MANIFEST = dict(
-    text='(filled in when the theorems are in place)',
-    note='',
-    technique='Coq proof + model/implementation correspondence',
-    design_ref='DESIGN.md section 4, C19',
+    text=('Proof: Coq theorems (all closed under the global context) about a hand-written model of Route.url as '
+          'written (cidx/clen/end slice bookkeeping over pattern_out, positional anonymous parameters, formatters, the '
+          'validation assertion as an explicit error) on top of C01\'s rule-by-rule matcher match1. C19_url_shape: for '
+          'ALL rules (adjacent wildcards, adjacent/empty/leading/trailing literal chunks), names and arguments the builder '
+          'equals the segment-wise specification, every error outcome included; a built url is the literal chunks verbatim '
+          'and in order with one text per wildcard. C19_identity_formatters / _roundtrip / _roundtrip_resolve: for plain, re '
+          'and path wildcards and EVERY regex engine, the url built from the values of a match is the matched path itself '
+          '(so it matches with the same values, also through resolve\'s \'/\'-stripping), unless the builder\'s own assertion '
+          'fails, and `validates` states exactly when. C19_int: for the concrete int filter (-?[0-9]+, int, str.int) rules of '
+          'literals, plain and int wildcards without two adjacent int wildcards rebuild to a url that matches with the same '
+          'values. Refuted with witnesses (findings): adjacent int wildcards with -0, float printing with exponent/inf, re '
+          'filter matching the empty string; recorded repair F19path (path wildcard followed by a literal). Model tied to '
+          '/repo on every run by a differential correspondence (extracted OCaml + vm_compute) over match -> url -> re-match '
+          'and by pinning FilterFactory.filters; an independent oracle states the round trip on the implementation.'),
+    note=('Trusted: Coq kernel + vm_compute; extraction (ExtrOcamlBasic only); the Python harness; Python re and float '
+          'conversion/printing enter only as universally quantified functions (rx, fconv). Modelled, not verified: the int '
+          'filter over ASCII digits only; the rule parser (the model starts from Route.parse_rule\'s output). match1 = the '
+          'router\'s behaviour is C01\'s theorem; here it is validated on single-rule routers by the correspondence. '
+          'Findings F19-float, F19-float-regex, F19-empty, F19-minus-zero are reproduced by the model and reported as '
+          'KNOWN-FINDING.'),
+    technique='Coq proof (loop invariant for the slice bookkeeping, induction over rule segments) + model/implementation '
+              'correspondence + implementation-level round-trip oracle',
+    design_ref='DESIGN.md section 4, C19 (and C01 for match1)',
 )
